@@ -44,7 +44,7 @@ def shards(tier):
 
 def required_counters(tier):
     d = {f"pair.{c}.{e}": 1 for c in CONSTRUCTS if c != "nonbinding" for e in EXITS}
-    d.update({"programs": 1000, "stack_exhaustion.entries": 100, "stack_exhaustion.entries_that_died_with_RecursionError": 5, "observations": 10000, "depth>=3": 200, "argcheck.callee": 100, "argcheck.caller_after": 100, "argcheck.no_arg_in_frame": 100, "toplevel_checks": 200, "pair.nonbinding.TypeError": 50, "programs.optimized_interpreter": 20, "calls_made_by_exec_inside_an_open_call": 100, "decorated_inside_a_live_scope": 200})
+    d.update({"programs": 1000, "stack_exhaustion.entries": 100, "property_accessors.scenarios": 2, "stack_exhaustion.entries_that_died_with_RecursionError": 5, "observations": 10000, "depth>=3": 200, "argcheck.callee": 100, "argcheck.caller_after": 100, "argcheck.no_arg_in_frame": 100, "toplevel_checks": 200, "pair.nonbinding.TypeError": 50, "programs.optimized_interpreter": 20, "calls_made_by_exec_inside_an_open_call": 100, "decorated_inside_a_live_scope": 200})
     return d
 
 
@@ -603,6 +603,94 @@ def run_optimized(rec, jobs, flag):
         os.unlink(jf)
 
 
+_ACCESSOR_SRC = '''
+import contextlib, io
+import numpy as np
+import jaxtyping
+from jaxtyping import Float, jaxtyped
+N = np.ndarray
+LOG = []
+def A(n):
+    return np.zeros((n,), dtype="float32")
+def seen():
+    buf = io.StringIO()
+    with contextlib.redirect_stdout(buf):
+        jaxtyping.print_bindings()
+    return buf.getvalue()
+class K:
+    def __init__(self):
+        self._v = A(5)
+    def _get(self) -> Float[N, "n"]:
+        LOG.append(("get", seen()))
+        isinstance(A(5), Float[N, "n"])
+        return self._v
+    def _set(self, value: Float[N, "n"]):
+        LOG.append(("set", seen()))
+        isinstance(A(5), Float[N, "k"])
+        self._v = value
+    def _del(self):
+        LOG.append(("del-before", seen()))
+        isinstance(A(6), Float[N, "n"])
+        LOG.append(("del-after", seen()))
+    x = jaxtyped(typechecker=CHECKER)(property(_get, _set, _del))
+def scenario():
+    del LOG[:]
+    k = K()
+    with jaxtyped("context"):
+        isinstance(A(3), Float[N, "n"])          # the caller's scope: n=3
+        before = seen()
+        k.x                                      # getter binds n=5 in ITS scope
+        LOG.append(("caller-after-get", seen() == before))
+        k.x = A(5)                               # setter: value n=5, and binds k=5
+        LOG.append(("caller-after-set", seen() == before))
+        del k.x                                  # deleter binds n=6
+        LOG.append(("caller-after-del", seen() == before))
+        LOG.append(("caller-n-still-3", bool(isinstance(A(3), Float[N, "n"])), bool(isinstance(A(5), Float[N, "n"]))))
+    return list(LOG)
+'''
+
+
+def arm_property_accessors(rec):
+    """every accessor of a decorated property (getter, setter, deleter) is a call with a scope of its own: it starts
+    without the caller's bindings and takes its own away with it"""
+    import beartype
+    import typeguard
+
+    from .. import real
+
+    for cname, tc in (("typeguard", typeguard.typechecked), ("beartype", beartype.beartype)):
+        ns = {"CHECKER": tc}
+        real.exec_src(_ACCESSOR_SRC, ns)
+        try:
+            log = ns["scenario"]()
+        except BaseException as e:  # noqa
+            rec.violation("lifetime", {"property_accessors": cname}, f"[{cname}] getter/setter/deleter of a decorated property called from a scope that has n=3: raised {type(e).__name__}: {str(e)[:200]}", mechanism="property-accessor-raises-" + type(e).__name__)
+            return
+        rec.count("property_accessors.scenarios")
+        rec.case(("property-accessors", cname), True)
+        d = {}
+        for entry in log:
+            d.setdefault(entry[0], []).append(entry[1:])
+        problems = []
+        for acc in ("get", "set", "del-before"):
+            for (text,) in d.get(acc, []):
+                if "n=3" in text:
+                    problems.append(f"the {acc.split('-')[0]}ter saw the caller's n=3 when it started")
+        if not d.get("get") or not d.get("set") or not d.get("del-before"):
+            problems.append(f"accessors did not all run: {sorted(d)}")
+        for (text,) in d.get("del-after", []):
+            if "n=6" not in text:
+                problems.append("the deleter's own binding n=6 is not visible inside the deleter")
+        for key in ("caller-after-get", "caller-after-set", "caller-after-del"):
+            if d.get(key) != [(True,)]:
+                problems.append(f"{key}: the caller's bindings changed")
+        if d.get("caller-n-still-3") != [(True, False)]:
+            problems.append(f"afterwards the caller's n answers {d.get('caller-n-still-3')} for sizes 3 and 5")
+        if problems:
+            rec.violation("lifetime", {"property_accessors": cname, "log": [list(map(str, e)) for e in log]}, f"[{cname}] decorated property accessed from a scope holding n=3: " + "; ".join(problems), mechanism="property-accessor-shares-the-callers-scope")
+            return
+
+
 def arm_stack_exhaustion(rec):
     """scopes and decorated calls ENTERED at every distance (1..79 frames) from the recursion limit, in a fresh process
     (jtv/checks/c05_stack_child.py): the entry succeeds or dies with RecursionError; afterwards, at ordinary depth,
@@ -640,6 +728,8 @@ def run_shard(rec, seed, shard, tier):
     _OTHER_INTERPRETER = [] if shard["i"] % 4 in (0, 2) else None
     if shard["i"] == 1:
         arm_stack_exhaustion(rec)
+    if shard["i"] == 2:
+        arm_property_accessors(rec)
     if shard["i"] % 4 == 3:
         from .. import real
 
